@@ -1,5 +1,6 @@
 /* system-level ops: the real pipeline in-process, with the guarded hooks logging events */
 #include "kvh.h"
+#include <sys/resource.h>
 #include <pthread.h>
 #include <unistd.h>
 #include <sched.h>
@@ -273,6 +274,22 @@ static int op_h_read(int argc, char **argv, FILE *out)
         fprintf(out, "rc=%d n=%d aligned=%d biotype=%d", rc, handles[h]->numseq, handles[h]->aligned, handles[h]->biotype);
         return 0;
 }
+/* h_read_nofd <h> <file>   (kalign_read_input while the process may open no further file descriptor: fopen fails with EMFILE) */
+static int op_h_read_nofd(int argc, char **argv, FILE *out)
+{
+        if(argc != 2) return 1;
+        int h = hidx(argv[0]); if(h < 0) return 1;
+        struct rlimit old, lim;
+        if(getrlimit(RLIMIT_NOFILE, &old)){ fputs("nolimit", out); return 0; }
+        lim = old; lim.rlim_cur = 0;
+        setrlimit(RLIMIT_NOFILE, &lim);
+        int rc = kalign_read_input(argv[1], &handles[h], 1);
+        setrlimit(RLIMIT_NOFILE, &old);
+        if(rc != OK && handles[h]){ kalign_free_msa(handles[h]); handles[h] = NULL; }
+        if(!handles[h]){ fprintf(out, "rc=%d null", rc); return 0; }
+        fprintf(out, "rc=%d n=%d aligned=%d biotype=%d", rc, handles[h]->numseq, handles[h]->aligned, handles[h]->biotype);
+        return 0;
+}
 /* h_run <h> <type> <gpo> <gpe> <tgpe> <nthreads> */
 static int op_h_run(int argc, char **argv, FILE *out)
 {
@@ -326,6 +343,7 @@ static int op_memuse(int argc, char **argv, FILE *out)
 struct kv_op kv_ops_sys[] = {
         {"memuse", op_memuse},
         {"h_read", op_h_read},
+        {"h_read_nofd", op_h_read_nofd},
         {"h_run", op_h_run},
         {"h_write", op_h_write},
         {"h_compare", op_h_compare},
